@@ -591,6 +591,22 @@ func (x *Exec) modEntryArrays(c *FuncContract, fn *ssa.Function, e Expr, mods ma
 			x.note("cannot resolve modifies entry %s of %s statically", e.exprString(), c.Key)
 			x.abstract = true
 		}
+		if ee.Fn == "mapelems" {
+			ty := x.staticTypeOf(env, c, fn, ee.Args[0])
+			if ty != nil {
+				if m, ok := ty.Underlying().(*types.Map); ok {
+					d, v, cd := x.mapNames(m)
+					ks, vs := x.sortOf(m.Key()), x.sortOf(m.Elem())
+					x.regArr(d, SArr(SInt, SArr(ks, SBool)))
+					x.regArr(v, SArr(SInt, SArr(ks, vs)))
+					x.regArr(cd, SArr(SInt, x.idxSort()))
+					mods[d], mods[v], mods[cd] = true, true, true
+					return
+				}
+			}
+			x.note("cannot resolve modifies entry %s of %s statically", e.exprString(), c.Key)
+			x.abstract = true
+		}
 		if ee.Fn == "cell" && fn != nil {
 			id := ee.Args[0].(EIdent)
 			for _, fv := range fn.FreeVars {
